@@ -49,6 +49,33 @@ def duration_fraction_is_decimal(ctx, rule):
            f'microsecond count far above one second - the granted expiry exceeds the requested one', fi=pd)
 
 
+def pool_user_released_under_its_netloc(ctx, rule):
+    """The subscription registers itself with the connection pool under the NotifyTo net location (the default of
+    _get_soap_client, used for every notification) - and that is the key it is released under when the subscription ends.
+    Released under another key, the client of the ended subscription (with the codings negotiated for it, and possibly a broken
+    connection) stays in the pool and is handed to the next subscription of that host."""
+    repo = ctx.repo
+    gs = repo.func(f'{SB}.SubscriptionBase._get_soap_client')
+    acq = [c for c in calls_in(gs.node, 'get_soap_client') if c.args]
+    if not acq:
+        raise AnalysisError(f'{rule}: _get_soap_client does not ask the pool any more')
+    a0 = acq[0].args[0]
+    default = a0.values[-1] if isinstance(a0, ast.BoolOp) and isinstance(a0.op, ast.Or) else \
+        a0.orelse if isinstance(a0, ast.IfExp) else a0
+    want = unparse(default)
+    cl = repo.func(f'{SB}.SubscriptionBase.close_by_subscription_manager')
+    g = cfg_of(cl)
+    rel = [(n, c) for n, c in g.nodes_calling('forget_usr') if c.args]
+    got = [g.symbolic_text(n, c.args[0]) for n, c in rel]
+    got += [unparse(g.origin_expr(n, c.args[0]) or c.args[0]) for n, c in rel]
+    ok = bool(rel) and all(want in (g.symbolic_text(n, c.args[0]), unparse(g.origin_expr(n, c.args[0]) or c.args[0])) for n, c in rel)
+    ctx.ob(rule, 'pool user released under the NotifyTo net location', ok,
+           f'close_by_subscription_manager releases the pooled client under {want}, the key it was obtained under' if ok else
+           f'close_by_subscription_manager releases the pooled client under {sorted(set(got))}, but notifications obtain it under '
+           f'{want}: when the two differ (EndTo on another host) the client of the ended subscription stays in the pool; the next '
+           f'subscription of that NotifyTo host is served through it - with the content codings negotiated for the old one', fi=cl)
+
+
 def run(ctx):  # noqa: C901, PLR0912, PLR0915
     repo = ctx.repo
     ctx.rule('C08.R1', 'send dominated by is_valid and unsubscribed_at is None (both senders); recipients by matches()')
@@ -299,6 +326,35 @@ def run(ctx):  # noqa: C901, PLR0912, PLR0915
            'tabs (legal for an xs:list) is accepted but matches no report', fi=ab)
     from .c09 import gathers_isolate_subscribers
     gathers_isolate_subscribers(ctx, 'C08.R2')
+    # a delivery that the subscriber answers with an HTTP error is a failed delivery whatever the body says: in the sync soap
+    # client every path from "status >= 300" ends in a raise (the senders count the error from that exception)
+    for q_sr in ('sdc11073.pysoap.soapclient.SoapClient._send_soap_request',
+                 'sdc11073.pysoap.soapclient_async.SoapClientAsync.async_post_message_to'):
+        sr = repo.func(q_sr)
+        gsr = cfg_of(sr)
+        errs = [b for b in gsr.nodes if b.kind == 'branch' and b.label is True and b.test is not None and
+                'status' in unparse(b.test) and any(isinstance(k, ast.Constant) and k.value in (299, 300, 400)
+                                                   for k in ast.walk(b.test))]
+        rz_ = [n for n in gsr.nodes if n.kind == 'raisestmt']
+        leak = [b for b in errs if gsr.path_exists(b, gsr.exit, avoid=rz_, normal_only=True)]
+        ok_sr = bool(errs) and not leak
+        ctx.ob('C08.R2', f'{sr.cls.name}: an HTTP error status always raises', ok_sr,
+               f'{sr.cls.name}.{sr.name} raises on every path after an HTTP error status' if ok_sr else
+               f'{sr.cls.name}.{sr.name} ' + ('never looks at the HTTP status of the answer' if not errs else
+                                             'can return normally after an HTTP error status (e.g. for an empty body)') +
+               ': the notification counts as delivered, the failure limit is never reached and the dead subscriber keeps being '
+               'sent to', fi=sr, node=leak[0].test if leak else None)
+    # the async client bounds the whole exchange: a timeout on the connect phase alone leaves send_to_subscribers waiting for
+    # ever for a subscriber that accepts the connection and never answers (under the subscriptions lock)
+    mkh = repo.func('sdc11073.pysoap.soapclient_async.SoapClientAsync._mk_http_connection')
+    cts = calls_in(mkh.node, 'ClientTimeout')
+    okt = bool(cts) and all((c.args and not (isinstance(c.args[0], ast.Constant) and c.args[0].value is None)) or
+                            any(k.arg == 'total' and not (isinstance(k.value, ast.Constant) and k.value.value is None)
+                                for k in c.keywords) for c in cts)
+    ctx.ob('C08.R2', 'async client: total timeout', okt,
+           'the aiohttp session of the async soap client has a total timeout' if okt else
+           f'the aiohttp session is created with {[unparse(c) for c in cts]}: no total timeout - a subscriber that accepts the '
+           f'connection and never answers is never counted as failed and blocks every later notification', fi=mkh)
     from . import common
     # a log call that raises while notifications go out skips the remaining subscribers / corrupts the error count
     common.log_templates_are_constant(ctx, 'C08.R2', ['sdc11073.provider.subscriptionmgr', 'sdc11073.pysoap.soapclient',
@@ -397,6 +453,7 @@ def run(ctx):  # noqa: C901, PLR0912, PLR0915
            'first notification fails without touching the network and it is dropped as undeliverable', fi=fu,
            node=stale[0].stmt if stale else None)
 
+    pool_user_released_under_its_netloc(ctx, 'C08.R5')
     # ------------------------------------------------------------------ R6
     ac = repo.cls('sdc11073.xml_types.actions.Actions')
     tails = {}
@@ -435,6 +492,8 @@ _B = 'src/sdc11073/provider/subscriptionmgr_base.py'
 _S = 'src/sdc11073/provider/subscriptionmgr.py'
 _A = 'src/sdc11073/provider/subscriptionmgr_async.py'
 SEEDS = [
+    seed('async client ignores the http status again (the defect repaired by 0947afa)', 'C08.R2',
+         ('src/sdc11073/pysoap/soapclient_async.py', "        if resp.status >= 300:  # noqa: PLR2004", "        if False:  # noqa: PLR2004")),
     seed('housekeeping removes from the table it iterates', 'C08.R1',
          (_B, """                obsolete_subscriptions = [
                     s
